@@ -21,3 +21,12 @@ Theorem C15_unknown_marker_named : forall l ln,
   parse_line l ln = inl (RInvalidTag (firstn 6 l)).
 Proof. exact unknown_marker_reported. Qed.
 Print Assumptions C15_unknown_marker_named.
+
+(* per-run obligation tying the model above to reader.go: the read loop counts every sub-line before it is
+   parsed (r.lineNum++ in the loop, whatever parseLine answers), parseLine's guard / arms / default arm and
+   the ParseError wrapper {Line: lineNum, Record: tagName} have the shapes the model was written from;
+   every arm is labelled with its own record name *)
+From Wire Require Import Theory.DispatchFacts.
+Theorem C15_reader_has_the_modelled_shape : ob_reader_shapes = true /\ ob_dispatch_arms = true.
+Proof. vm_compute. split; reflexivity. Qed.
+Print Assumptions C15_reader_has_the_modelled_shape.
